@@ -6,6 +6,7 @@ import (
 	"go/token"
 	"go/types"
 	"path/filepath"
+	"regexp"
 	"sort"
 	"strings"
 )
@@ -50,6 +51,8 @@ func rootIdent(e ast.Expr) *ast.Ident {
 	}
 }
 
+var indexContents = regexp.MustCompile(`\[[^\]]*\]`)
+
 func leanStrList(xs []string) string {
 	q := make([]string, len(xs))
 	for i, x := range xs {
@@ -59,7 +62,7 @@ func leanStrList(xs []string) string {
 }
 
 func genInventory(c *ctx) (string, error) {
-	var mapRanges, mapRangeClasses, loops, loopFuncs, panicSites, unguarded, globalWrites, sharedWrites []string
+	var mapRanges, mapRangeClasses, loops, loopFuncs, panicSites, unguarded, globalWrites, sharedWrites, sharedWriteKinds []string
 	perMessageFresh := false
 	for _, suffix := range inventoryPkgs {
 		p := c.pkg(suffix)
@@ -115,6 +118,18 @@ func genInventory(c *ctx) (string, error) {
 					}
 					if isEntry && o != nil && params[o] {
 						sharedWrites = append(sharedWrites, fn+": "+r.Name+": "+exprString(c, lhs))
+						// … and by package, type written through and path, so that moving the assignment into a helper
+						// method of the same package or renaming the parameter does not change its key
+						pkgName := fn
+						if i := strings.Index(fn, "."); i >= 0 {
+							pkgName = fn[:i]
+						}
+						path := strings.TrimPrefix(strings.TrimPrefix(exprString(c, lhs), "*"), r.Name)
+						if strings.HasPrefix(exprString(c, lhs), "*") {
+							path = "*" + path
+						}
+						path = indexContents.ReplaceAllString(path, "[]")
+						sharedWriteKinds = append(sharedWriteKinds, pkgName+": "+types.TypeString(o.Type(), func(q *types.Package) string { return q.Name() })+": "+path)
 					}
 				}
 				g := &guardCtx{c: c, info: p.TypesInfo}
@@ -201,7 +216,7 @@ func genInventory(c *ctx) (string, error) {
 	// a comma-ok type assertion is not a panic site: drop `x, ok := e.(T)` forms (they appear as
 	// assert entries whose parent is a two-valued assignment); handled by text: keep all, the
 	// discharged table lists them with their guard.
-	for _, l := range []*[]string{&mapRanges, &mapRangeClasses, &loops, &panicSites, &unguarded, &globalWrites, &sharedWrites} {
+	for _, l := range []*[]string{&mapRanges, &mapRangeClasses, &loops, &panicSites, &unguarded, &globalWrites, &sharedWrites, &sharedWriteKinds} {
 		sort.Strings(*l)
 		*l = dedup(*l)
 	}
@@ -221,6 +236,7 @@ func genInventory(c *ctx) (string, error) {
 	fmt.Fprintf(&sb, "/-- every expression that can panic on some value: index/slice on non-maps, explicit dereference, type assertion, panic call -/\ndef panicSites : List String := %s\n\n", leanStrListNL(panicSites))
 	fmt.Fprintf(&sb, "/-- every assignment whose target is (reached through) a package-level variable -/\ndef globalWrites : List String := %s\n\n", leanStrListNL(globalWrites))
 	fmt.Fprintf(&sb, "/-- in the parse entry points and the extension methods: assignments through a parameter or the receiver, as \"pkg.func: root: target\" -/\ndef sharedWrites : List String := %s\n\n", leanStrListNL(sharedWrites))
+	fmt.Fprintf(&sb, "/-- the same assignments by package, type written through and path (independent of function and parameter names) -/\ndef sharedWriteKinds : List String := %s\n\n", leanStrListNL(dedupStrings(sharedWriteKinds)))
 	fmt.Fprintf(&sb, "/-- ParseRealtime asks a PerMessageExtension for a fresh instance per message -/\ndef parseRealtimeUsesForMessage : Bool := %v\n\n", perMessageFresh)
 	fmt.Fprintf(&sb, "/-- ParseRealtime re-points its options parameter to a local copy (`x := *opts; opts = &x`) before any assignment through it -/\ndef parseRealtimeWritesOnlyToCopy : Bool := %v\n\n", copiesOpts(c))
 	fmt.Fprintf(&sb, "/-- the panic-capable sites for which the extractor found no local guard (nil check, range index, sort comparator, checked length, constant index into an array), by function and kind: these are discharged by hand -/\ndef panicSiteKinds : List String := %s\n\n", leanStrListNL(unguarded))
